@@ -38,9 +38,14 @@ use crate::variable;
 use crate::vm;
 use std::num;
 use std::rc;
+#[cfg(not(texcraft_verif_sched))]
 use std::sync;
 
 pub(crate) mod map;
+#[cfg(texcraft_verif_sched)]
+pub mod verif_sync;
+#[cfg(texcraft_verif_sched)]
+use verif_sync as sync;
 
 pub use map::Map;
 
@@ -319,7 +324,10 @@ impl Tag {
 /// let second_get = TAG.get();
 /// assert_eq!(first_get, second_get);
 /// ```
+#[cfg(not(texcraft_verif_sched))]
 pub struct StaticTag(std::sync::OnceLock<Tag>);
+#[cfg(texcraft_verif_sched)]
+pub struct StaticTag(sync::OnceLock<Tag>);
 
 impl Default for StaticTag {
     fn default() -> Self {
@@ -330,6 +338,9 @@ impl Default for StaticTag {
 impl StaticTag {
     /// Create a new static tag.
     pub const fn new() -> StaticTag {
+        #[cfg(texcraft_verif_sched)]
+        return StaticTag(sync::OnceLock::new());
+        #[cfg(not(texcraft_verif_sched))]
         StaticTag(std::sync::OnceLock::new())
     }
 
